@@ -319,11 +319,8 @@ class Tracker:
     def __init__(self, builtin_order):
         self.contents = [[n, dict(p), dict(m)] for n, p, m in builtin_order]   # ordered
         self.default = None
-        self.taint = set()
-        self.undefined = False       # an operation raised from the macro expansion: contents no longer defined
-        self.seen_macro_keys = set()
-        for _, _, m in builtin_order:
-            self.seen_macro_keys |= set(m)
+        self.taint = set()           # ids of known findings whose region the history has entered (none open)
+        self.undefined = False
 
     def names(self):
         return [c[0] for c in self.contents]
@@ -335,73 +332,38 @@ class Tracker:
         return None
 
     def pre(self, op, base_keys):
-        """taints entered by executing `op` in the current state (before looking at the outcome)"""
-        k = op[0]
-        if k == 'addps':
-            ns = [n for n, _, _ in op[1]]
-            used_keys = base_keys | self.seen_macro_keys
-            overrides = any(m and (set(m) & used_keys) for _, _, m in op[1])
-            if self.contents and overrides:
-                self.taint.add('C14-addprofiles-no-reexpansion')
-            if len(set(ns)) != len(ns) or any(self.find(n) is not None and m for n, _, m in op[1]):
-                self.taint.add('C14-replace-stale-macros')
-        elif k == 'add':
-            if self.find(op[1]) is not None and op[3]:
-                self.taint.add('C14-replace-stale-macros')
-        elif k == 'rmall':
-            if any(c[2] for c in self.contents) or self.taint & {'C14-addprofiles-no-reexpansion',
-                                                                 'C14-replace-stale-macros',
-                                                                 'C14-failed-expansion-partial-update'}:
-                self.taint.add('C14-removeall-keeps-macros')
+        """(kept for the regions of known findings: none is open now — the four that existed are fixed)"""
+        return
 
     def post(self, op, outcome):
         k = op[0]
-        if outcome in ('KeyError', 'Diverges', 'ValueError'):
-            self.taint.add('C14-failed-expansion-partial-update')
-            self.undefined = True
+        if outcome != 'OK':
+            # a mutator that raises leaves the registry as it was (`_atomic`); checked by oracle O7
             return
-        if k == 'add' and outcome == 'OK':
+        if k == 'add':
             n, ps, ms = op[1], op[2], op[3]
             c = self.find(n)
-            if ms:
-                self.seen_macro_keys |= set(ms)
             if c is None:
                 self.contents.append([n, dict(ps), dict(ms or {})])
             else:
                 c[1] = dict(ps)
                 if ms:
                     c[2] = dict(ms)
-        elif k == 'addps' and outcome == 'OK':
+        elif k == 'addps':
             for n, ps, ms in op[1]:
-                if ms:
-                    self.seen_macro_keys |= set(ms)
                 c = self.find(n)
                 if c is None:
-                    self.contents.append([n, dict(ps), dict(ms or {})])
+                    self.contents.append([n, dict(ps), {}])
                 else:
                     c[1] = dict(ps)
-            # the macros seen by a profile are the last truthy ones given for its name in this call
-            last = {}
+            # the macros stored with a profile are the last non-empty ones given for its name in this call
             for n, ps, ms in op[1]:
                 if ms:
-                    last[n] = dict(ms)
-            for n, ms in last.items():
-                self.find(n)[2] = ms
-        elif k == 'rm' and outcome == 'OK':
-            c = self.find(op[1])
-            if c is None:               # only after an operation that failed half way
-                return
-            had_macros = bool(c[2])
-            self.contents.remove(c)
-            if had_macros and not self.undefined:
-                # a full re-expansion from the remaining contents: stale macro state is gone
-                self.taint -= {'C14-addprofiles-no-reexpansion', 'C14-replace-stale-macros',
-                               'C14-removeall-keeps-macros'}
+                    self.find(n)[2] = dict(ms)
+        elif k == 'rm':
+            self.contents.remove(self.find(op[1]))
         elif k == 'rmall':
             self.contents = []
-            if self.undefined:
-                self.undefined = False
-                self.taint.discard('C14-failed-expansion-partial-update')
         elif k == 'def':
             d = op[1]
             self.default = [d] if isinstance(d, str) else (None if d is None else list(d))
@@ -461,11 +423,11 @@ class C14(Check):
         seqs = self.corpus(ctx) + self.fixed_histories() + \
             [self.gen_history(rng, clean=(i % 3 == 0)) for i in range(ctx.n(70, 1000))]
         if ctx.model_ok:
-            # hypotheses of theorem C14.init_inv evaluated on the generated tables (names differ, everything expands)
+            # hypotheses of theorem C14.init_contents evaluated on the generated tables (names differ, no exception)
             rep = ctx.driver(['initcheck'])[0]
-            ctx.notes['init_inv_hypotheses_hold_for_generated_tables'] = rep
+            ctx.notes['init_contents_hypotheses_hold_for_generated_tables'] = rep
             if rep != 'OK':
-                ctx.disagree('hypotheses of init_inv on the built-in tables', {'op': 'initcheck'}, 'Profiles() works', rep)
+                ctx.disagree('hypotheses of init_contents on the built-in tables', {'op': 'initcheck'}, 'Profiles() works', rep)
         self.correspond(ctx, impl, seqs)
         self.expand_correspond(ctx, impl, rng)
         self.oracle(ctx, impl, seqs, rng)
@@ -871,8 +833,7 @@ class C14(Check):
             tr.post(op, impl.apply(p, op))
         return p, tr
 
-    PRIORITY = ['C14-failed-expansion-partial-update', 'C14-removeall-keeps-macros', 'C14-replace-stale-macros',
-                'C14-addprofiles-no-reexpansion']
+    PRIORITY = []       # open known findings, most specific first (none)
 
     def attribute(self, tr):
         for k in self.PRIORITY:
@@ -909,7 +870,30 @@ class C14(Check):
         for _ in range(ctx.n(60, 1500)):
             self.oracle_twin(ctx, impl, rng)
 
+    def cheap_state(self, impl, p):
+        """everything observable except the verdicts, which are a function of the compiled patterns/callables"""
+        pats = [(prof, prop, getattr(v, 'pattern', v)) for prof, prop, v in impl.compiled_items(p)]
+        eff = p.defaultProfiles
+        return (list(p.profiles), list(p.knownNames), pats, [eff] if isinstance(eff, str) else list(eff))
+
+    def oracle_rejected(self, ctx, impl, ops):
+        """O7: an operation that raises (undefined or cyclic macro, unknown profile) changes nothing"""
+        p = impl.fresh()
+        for i, op in enumerate(ops):
+            before = self.cheap_state(impl, p)
+            out = impl.apply(p, op)
+            if out != 'OK':
+                ctx.case(key=('O7', repr(ops[:i + 1])), nontrivial=True, kind='oracle:rejected-unchanged:' + out)
+                after = self.cheap_state(impl, p)
+                if after != before:
+                    what = [k for k, a, b in zip(('profiles', 'knownNames', 'compiled patterns', 'defaultProfiles'),
+                                                 after, before) if a != b]
+                    ctx.violate('an addProfile/addProfiles/removeProfile call that raises leaves the registry unchanged',
+                                {'oracle': 'O7', 'history': ops[:i + 1]}, {'raised': out, 'changed': what})
+                    return
+
     def oracle_history(self, ctx, impl, ops, rng):
+        self.oracle_rejected(ctx, impl, ops)
         cut = rng.randint(0, len(ops))
         for stop in sorted({cut, len(ops)}):
             hist = ops[:stop]
